@@ -280,6 +280,16 @@ def edgeAttrNullRemovesAttr (what : String) (withAttr after : Dump) : Viol :=
   if expect.map foldEdge != ae.map foldEdge then some ("edge-attribute-null-not-exact", s!"{what}: expected {expect.map showEdge} got {ae.map showEdge}")
   else if (vobjs withAttr).map foldObj != (vobjs after).map foldObj then some ("edge-attribute-null-changes-objects", what) else none
 
+/-- C10, `a -> b -> c: null` (or `(a -> b -> c)[0]: null`) after the chain was declared: null removes the connection(s) the key
+    names — every link of the chain is gone, the objects stay, nothing else changes -/
+def chainNullRemovesAll (what : String) (base withChain after : Dump) : Viol :=
+  let ae := vedges after
+  match ae.find? fun e => e.label == "ZZl" with
+  | some e => some ("chain-null-leaves-link", s!"{what}: the link {showEdge e} is still there")
+  | none =>
+    if (vedges base).map foldEdge != ae.map foldEdge then some ("chain-null-changes-other-edges", what) else
+    if (vobjs withChain).map foldObj != (vobjs after).map foldObj then some ("chain-null-changes-objects", what) else none
+
 /-- C11, `(e)[i].label: ZZhit` appended: exactly one connection changed, the one of that class -/
 def indexedRefHitsOne (esrc edst : String) (sa da : Bool) (lbl : String) (base after : Dump) : Viol :=
   let be := vedges base; let ae := vedges after
